@@ -55,6 +55,10 @@ pub struct Case {
     pub req: Req,
     pub via: Via,
     pub inval: Inval,
+    /// tree operations on other positions after the prover was registered (incl. reads of the
+    /// prover's path and batch removals): the prover then works on a tree with a history
+    #[serde(default)]
+    pub history: Vec<c01::SideOp>,
 }
 
 struct Built {
@@ -200,7 +204,7 @@ fn inval_strategy() -> BoxedStrategy<Inval> {
 
 pub fn run(ctx: &Ctx, c: &Case, o: &mut Outcome) {
     // world: the identity is registered, so that a valid request is a valid membership
-    let world = c01::Case { req: c.req.clone(), pre: vec![], post: vec![], entry: Entry::FromTree, place: c01::Place::SetLeaf, second: None };
+    let world = c01::Case { req: c.req.clone(), pre: vec![], post: c.history.clone(), entry: Entry::FromTree, place: c01::Place::SetLeaf, second: None };
     let (mut r, m): (RLN, TreeModel) = match c01::build_world(&world) {
         Ok(x) => x,
         Err(e) => {
@@ -323,7 +327,7 @@ impl Property for C12 {
         "C12"
     }
     fn rule(&self) -> String {
-        "proving requests for three entry points (generate_rln_proof from tree state, generate_rln_proof_with_witness, raw prove), valid ones (C01's generator) and invalid ones by class: mid = limit, mid = limit+1+d, mid >= 2^16 with limit > mid, limit - mid > 2^16, limit = 0, mid = p-1, index in {cap, cap+1, usize::MAX}, path length 0/1/19/21, a direction value in 2..255, index vector of different length, truncation at a generated byte, trailing bytes, declared signal length longer / shorter / huge (2^32, 2^63, u64::MAX-135, u64::MAX), random bytes. Fixed part: every class (34 representatives) once on each of the three entry points; generated part: the same classes with generated requests and parameters. \
+        "proving requests for three entry points (generate_rln_proof from tree state, generate_rln_proof_with_witness, raw prove), valid ones (C01's generator; a third of the cases on a tree with a history of other members' writes, batch removals and reads of the prover's path after registration) and invalid ones by class: mid = limit, mid = limit+1+d, mid >= 2^16 with limit > mid, limit - mid > 2^16, limit = 0, mid = p-1, index in {cap, cap+1, usize::MAX}, path length 0/1/19/21, a direction value in 2..255, index vector of different length, truncation at a generated byte, trailing bytes, declared signal length longer / shorter / huge (2^32, 2^63, u64::MAX-135, u64::MAX), random bytes. Fixed part: every class (34 representatives) once on each of the three entry points; generated part: the same classes with generated requests and parameters. \
          Oracle: Err, or Ok with a message that verification accepts (verify_rln_proof against the same tree for the tree entry, verify for witness entries); a panic or an Ok with a rejected proof is a violation; valid requests must succeed; after every third invalid request the plain valid request is proved on the same instance and must succeed and verify. The reference witness generator partitions witness-level requests (label only; an accepted proof for an assignment it rejects raises a harness alarm). \
          non-trivial = any invalid class, or a valid request with mid = limit-1; distinct by case content".into()
     }
@@ -339,8 +343,13 @@ impl Property for C12 {
         refwit::global(crate::props::c05::WORKERS).map(|_| ())
     }
     fn strategy(&self, _tier: Tier, _shard: usize) -> BoxedStrategy<Case> {
-        (req_strategy(3000), prop_oneof![3 => Just(Via::Tree), 2 => Just(Via::Witness), 1 => Just(Via::RawProve)], inval_strategy())
-            .prop_map(|(req, via, inval)| Case { req, via, inval })
+        (
+            req_strategy(3000),
+            prop_oneof![3 => Just(Via::Tree), 2 => Just(Via::Witness), 1 => Just(Via::RawProve)],
+            inval_strategy(),
+            prop_oneof![2 => Just(vec![]).boxed(), 1 => proptest::collection::vec(c01::side_op(), 1..3).boxed()],
+        )
+            .prop_map(|(req, via, inval, history)| Case { req, via, inval, history })
             .boxed()
     }
     /// every invalid class once per entry point, on a request drawn from the seed (the generated part
@@ -383,9 +392,30 @@ impl Property for C12 {
             Inval::Extend(0),
             Inval::Extend(8),
         ];
+        // valid requests from tree state on trees with a history after registration
+        let histories: Vec<Vec<c01::SideOp>> = vec![
+            vec![c01::SideOp::BatchRemove(c01::Where::Sibling, c01::Where::Neighbour)],
+            vec![c01::SideOp::QueryPath, c01::SideOp::BatchRemove(c01::Where::First, c01::Where::OtherHalf)],
+            vec![c01::SideOp::Set(c01::Where::Sibling, 3), c01::SideOp::QueryPath, c01::SideOp::Delete(c01::Where::Sibling)],
+            vec![c01::SideOp::BigRegistration(1), c01::SideOp::BatchRemove(c01::Where::Uniform(5), c01::Where::Uniform(77))],
+        ];
+        for (k, history) in histories.into_iter().enumerate() {
+            let c = Case { req: reqs[k % reqs.len()].clone(), via: Via::Tree, inval: Inval::Valid, history };
+            let mut o = Outcome::new();
+            o.label("via/Tree");
+            o.label("request/Valid");
+            o.label("fixed-history-sweep");
+            o.nontrivial = true;
+            run(ctx, &c, &mut o);
+            let h = case_hash(&c);
+            stats.record(&o, h, || serde_json::json!({"via": "Tree", "request": "Valid", "history": format!("{:?}", c.history)}));
+            if let Some(m) = o.fail {
+                return Some((m, Some(c)));
+            }
+        }
         for (k, inval) in classes.into_iter().enumerate() {
             for via in [Via::Tree, Via::Witness, Via::RawProve] {
-                let c = Case { req: reqs[k % reqs.len()].clone(), via, inval: inval.clone() };
+                let c = Case { req: reqs[k % reqs.len()].clone(), via, inval: inval.clone(), history: vec![] };
                 let mut o = Outcome::new();
                 o.label(format!("via/{:?}", c.via));
                 o.label(format!("request/{}", inval_name(&c.inval)));
